@@ -370,7 +370,7 @@ func genC08(r *Rng, idx int, tier string) *Scenario {
 		if r.Chance(1, 12) {
 			sc.Steps = append(sc.Steps, Step{Op: "prf_d_use", SA: 0, Side: cs.Side, Data: r.Bytes(r.Range(0, 300))})
 		}
-		if idx%3000 == 2999 && i == n/2 {
+		if idx%2999 == 2998 && i == n/2 {
 			cs.N = 1<<16 + r.Intn(50)
 			if len(cs.Nonce) > 64 {
 				cs.Nonce = cs.Nonce[:64]
